@@ -48,10 +48,18 @@ CHECKS = {
         text='gemdat.Trajectory is specified as an object store whose objects hold one coords array switched in place between positions and displacements; TLC explores every call sequence up to a bound (AbsStable: every live object keeps denoting its ghost), every model behaviour is replayed on the real class, and long random call sequences are validated event by event with the projection of every live object.',
         note='Trusted: TLC; projection of objects from public attributes (coords, coords_are_displacement, base_positions); constant-cell trajectories only.',
         ref='DESIGN.md 8/C15', technique='TLA+ spec Trajectory.tla; TLC model checking (MC_Trajectory + negative control) + replay of all exported behaviours + trace validation (TraceTraj.tla)'),
+    'C16': dict(
+        text='The loader / cache-file protocol is a TLA+ state machine with a crash action at every step and corruption of any cache file; TLC checks result correctness, completeness after return and key separation over all schedules (negative control: the original under-keyed cache name is refuted). Every model behaviour is replayed on from_vasprun (and a sample on from_lammps) with synthetic source files, and every byte prefix of the real cache image is enumerated as a fault.',
+        note='Trusted: TLC; an interrupted pickle.dump leaves a byte prefix; synthetic vasprun.xml / LAMMPS files; from_gromacs (binary .tpr not synthesiseable offline) is covered by the model only.',
+        ref='DESIGN.md 8/C16', technique='TLA+ spec DiskCache.tla; TLC model checking with crash/corrupt actions + negative control; replay of TLC-exported behaviours; byte-prefix fault enumeration'),
     'C19': dict(
         text='TLC checks on every bounded history and every cut that part jumps are jumps of the whole; recorded split() results of the real code are validated by the trace spec for partition, exactly-once, re-basing and chronology with an offset witness.',
         note='Where part boundaries fall is deliberately not constrained. Trusted: TLC, harness witness search (exhaustive, verified by TLC).',
         ref='DESIGN.md 8/C19', technique='TLA+ spec Sites.tla (InvPartsSubset) + trace validation of split()/rates() (TraceSites.tla)'),
+    'C20': dict(
+        text='weak_lru_cache is specified with object incarnations at reusable addresses, LRU eviction, drop and collection; TLC checks transparency, no cross-talk and no pinning over all interleavings and refutes three negative-control variants (id key, strong key, value referencing owner). Recorded lifecycles of a probe class with the real decorator, of real Transitions/Jumps/TrajectoryMetrics objects and of >128 live owners are validated event by event.',
+        note='Trusted: TLC; CPython refcount/gc semantics observed through weakref.finalize; value equality by canonical digest; cache hits are not observable and not constrained.',
+        ref='DESIGN.md 8/C20', technique='TLA+ spec MemoCache.tla; TLC model checking + 3 negative controls; trace validation of recorded lifecycles (TraceMemo.tla)'),
 }
 
 PENDING_REASON = 'check not built yet in this round (specification module planned in DESIGN.md section 4); not claimed until its TLA+ spec and conformance leg exist'
